@@ -117,3 +117,154 @@ def s1_digest() -> dict:
 
 def component_dump(obj) -> str:
     return _h(_stable(obj))
+
+
+# --------------------------------------------------------------------------
+# fast shared-state signature (greybox targeting of pre-emption points, C15)
+# --------------------------------------------------------------------------
+
+_SMALL = (int, float, bool, type(None))
+
+
+class FastSig:
+    """Cheap signature of every module global, class attribute and mutable
+    function default under rtflite.*; changes when a name is rebound, a small
+    container's elements change identity, a container's length changes, or an
+    attribute of a module-level rtflite instance (two levels deep) changes.
+    Used only to *find* functions that write shared state; never an oracle."""
+
+    def __init__(self):
+        self.slots = []
+        self.nmods = -1
+        self.nmods_raw = -1
+        self.sizes = ()
+        self._ids = None
+        self._deep = None
+        self._rescan()
+
+    def _mods(self):
+        return [sys.modules[m] for m in sorted(sys.modules)
+                if (m == "rtflite" or m.startswith("rtflite.")) and sys.modules.get(m) is not None]
+
+    def _rescan(self):
+        slots = []
+        mods = self._mods()
+        for mod in mods:
+            md = vars(mod)
+            mname = mod.__name__
+            for name, v in list(md.items()):
+                if name.startswith("__"):
+                    continue
+                if isinstance(v, types.ModuleType):
+                    continue
+                if isinstance(v, type):
+                    if getattr(v, "__module__", None) != mname:
+                        continue
+                    cd = vars(v)
+                    for an, av in list(cd.items()):
+                        if an.startswith("__"):
+                            continue
+                        f = av.__func__ if isinstance(av, (staticmethod, classmethod)) else av
+                        if isinstance(f, types.FunctionType):
+                            self._func_slots(slots, f)
+                            continue
+                        if isinstance(av, property):
+                            continue
+                        slots.append((cd, an))
+                elif isinstance(v, types.FunctionType):
+                    if getattr(v, "__module__", None) == mname:
+                        self._func_slots(slots, v)
+                elif isinstance(v, types.BuiltinFunctionType):
+                    continue
+                else:
+                    slots.append((md, name))
+        self.slots = slots
+        self.sizes = tuple(len(vars(m)) for m in mods)
+        self.nmods = len(mods)
+
+    @staticmethod
+    def _func_slots(slots, f):
+        d = f.__defaults__
+        if d:
+            for i, x in enumerate(d):
+                if isinstance(x, (dict, list, set, bytearray)):
+                    slots.append((d, i))
+        kd = f.__kwdefaults__
+        if kd:
+            for k, x in kd.items():
+                if isinstance(x, (dict, list, set, bytearray)):
+                    slots.append((kd, k))
+        if f.__dict__:
+            slots.append((f.__dict__, None))
+
+    @staticmethod
+    def _shallow(v, depth):
+        t = type(v)
+        if t in _SMALL:
+            return v
+        if t is str or t is bytes:
+            return v if len(v) <= 64 else (id(v), len(v))
+        if t is dict:
+            n = len(v)
+            if n > 48:
+                return (id(v), n)
+            if depth <= 0:
+                return (id(v), n, tuple(map(id, v.values())))
+            return (id(v), n, tuple(FastSig._shallow(x, depth - 1) for x in v.values()))
+        if t is list or t is set or t is tuple or t is frozenset or t is bytearray:
+            n = len(v)
+            if n > 48 or t is bytearray:
+                return (id(v), n)
+            if depth <= 0:
+                return (id(v), n, tuple(map(id, v)))
+            return (id(v), n, tuple(FastSig._shallow(x, depth - 1) for x in v))
+        mod = getattr(t, "__module__", "") or ""
+        if mod.startswith("rtflite"):
+            d = getattr(v, "__dict__", None)
+            if isinstance(d, dict) and depth > 0:
+                return (id(v), FastSig._shallow(d, depth - 1))
+        return id(v)
+
+    def sig(self):
+        """Two tiers: identities of every slot value (rebinding), then a shallow
+        structural signature of the slots holding containers or rtflite instances."""
+        mods_n = 0
+        sizes = []
+        for m in sys.modules:
+            if m.startswith("rtflite"):
+                mods_n += 1
+        if mods_n != self.nmods_raw:
+            self._rescan()
+            self.nmods_raw = mods_n
+            self._deep = None
+        try:
+            ids = tuple([id(d if k is None else d[k]) for d, k in self.slots])
+        except (KeyError, IndexError):
+            self._rescan()
+            self._deep = None
+            ids = tuple([id(d if k is None else d.get(k) if isinstance(d, dict) else None) for d, k in self.slots])
+        if ids != self._ids or self._deep is None:
+            self._ids = ids
+            deep = []
+            for d, k in self.slots:
+                try:
+                    v = d if k is None else d[k]
+                except (KeyError, IndexError):
+                    continue
+                t = type(v)
+                if t in (dict, list, set, bytearray) or (getattr(t, "__module__", "") or "").startswith("rtflite"):
+                    if t in (dict, list, set) and len(v) > 48:
+                        deep.append((d, k, 0))
+                    else:
+                        deep.append((d, k, 2))
+            self._deep = deep
+        sh = self._shallow
+        out = []
+        for d, k, depth in self._deep:
+            try:
+                v = d if k is None else d[k]
+            except (KeyError, IndexError):
+                out.append(None)
+                continue
+            out.append(len(v) if depth == 0 else sh(v, depth))
+        return hash((ids, tuple(out)))
